@@ -46,7 +46,10 @@ impl SelectiveAck {
     }
 
     pub fn as_bytes(&self) -> &[u8] {
-        self.data.as_raw_slice()
+        // Only the bytes that were on the wire (all 8 for locally built SACKs), so that
+        // serializing a parsed header reproduces it.
+        let len = (self.len / 8).min(std::mem::size_of::<SelectiveAckData>());
+        &self.data.as_raw_slice()[..len]
     }
 
     pub fn deserialize(bytes: &[u8]) -> Self {
@@ -61,7 +64,7 @@ impl SelectiveAck {
         data.as_raw_mut_slice()[..len].copy_from_slice(&bytes[..len]);
         Self {
             data,
-            len: bytes.len() * 8,
+            len: len * 8,
         }
     }
 
